@@ -53,6 +53,12 @@ def run(ctx):
   rule_nonempty_dict(ctx)
   rule_bool(ctx)
   rule_window(ctx)
+  # results are indexed by the position of the artifact in the list that was searched: lists of different length raise IndexError (shared with C02)
+  rule_invert(ctx)
+  ctx.expect("R-C18-INVERT", 2, "affine Add and Double")
+  from . import c02
+  ctx.borrow(c02.rule_align, "R-C18-ALIGN")
+  ctx.expect("R-C18-ALIGN", 4, "four Check bodies consuming a batched search")
   ctx.expect("R-C18-WINDOW", 1, "one windowed lattice call")
   ctx.expect("R-C18-EMPTY", 24 + 3, "24 Check bodies + 3 entry points")
   ctx.expect("R-C18-NULL", 7, "seven draws from CURVE_FACTORY")
@@ -384,3 +390,122 @@ def rule_window(ctx):
     if divides or probs:
       ctx.record(R, b.where(), "every window handed to HiddenNumberProblem is non-empty", not probs, "; ".join(sorted(set(probs))) or
                  "window starts come from range(0, len(a), size): each start is below len(a)")
+
+
+# ------------------------------------------------------------------ INVERT: no modular inversion of a value that may be 0 modulo the prime
+def check_seeds(repo, ec_methods):
+  """(method, param, reason) for every EcCurve method that a Check body calls with points read straight from the artifacts."""
+  seeds = []
+  for b in T.bodies(repo):
+    fn = b.func.node
+    has_pp = lambda e: any(isinstance(x, ast.Call) and ((isinstance(x.func, ast.Attribute) and x.func.attr == "PublicPoint") or
+                                                         (isinstance(x.func, ast.Name) and x.func.id == "PublicPoint")) for x in ast.walk(e))
+    Tn = set()
+    for _ in range(4):
+      for n in ast.walk(fn):
+        if isinstance(n, ast.Assign):
+          if has_pp(n.value) or any(isinstance(x, ast.Name) and x.id in Tn for x in ast.walk(n.value)):
+            for t in n.targets:
+              for x in ast.walk(t):
+                if isinstance(x, ast.Name):
+                  Tn.add(x.id)
+    for n in ast.walk(fn):
+      if isinstance(n, ast.Call) and isinstance(n.func, ast.Attribute) and n.func.attr in ec_methods and not (isinstance(n.func.value, ast.Name) and n.func.value.id in ("util", "ec_util")):
+        ps = [a.arg for a in ec_methods[n.func.attr].node.args.args if a.arg != "self"]
+        for i, a in enumerate(n.args):
+          if i < len(ps) and (has_pp(a) or any(isinstance(x, ast.Name) and x.id in Tn for x in ast.walk(a))):
+            seeds.append((n.func.attr, ps[i], "%s line %d: coordinates of the artifact, unvalidated" % (b.where(), n.lineno)))
+  return seeds
+
+
+def rule_invert(ctx):
+  R = "R-C18-INVERT"
+  repo = ctx.repo
+  from pcstatic import taint
+  cls = repo.cls("ec_util", "EcCurve")
+  ct = taint.ClassTaint(cls)
+  seeds = check_seeds(repo, cls.methods)
+  if len(seeds) < 3:
+    raise Incomplete("fewer than three Check bodies hand artifact points to EcCurve (found %d)" % len(seeds), "ec checks")
+  tainted = ct.run(seeds)
+  ctx.extra["raw_point_methods"] = {m: sorted(ps) for m, ps in sorted(tainted.items())}
+  MODP = sym.mk("attr", P("param", "self"), "mod")
+  n_sites = 0
+  for m in sorted(tainted):
+    f = cls.methods[m]
+    sites = [n for n in ast.walk(f.node) if isinstance(n, ast.Call) and isinstance(n.func, ast.Attribute) and n.func.attr == "invert"]
+    if not sites:
+      continue
+    Tl = ct.local.get(m, set())
+    raw_sites = [n for n in sites if n.args and ct.expr(n.args[0], Tl, {"mod"})]
+    if not raw_sites:
+      continue
+    w = sym.Walker(repo, f)
+    w.run()
+    for site in raw_sites:
+      n_sites += 1
+      evs = [e for e in w.events if e.kind == "call" and e.node is site]
+      if not evs:
+        ctx.incomplete(R, f.where, norm(site), "inversion site not reached by the walker")
+        continue
+      bad = None
+      for e in evs:
+        args = e.data["args"]
+        d, M = as_poly(args[0]), as_poly(args[1])
+        if M != MODP:
+          continue
+        if not nonzero_mod(d, M, e.facts) and not canonical_z(cls, d, e.facts):
+          bad = e
+      chain = ct.chain(m, sorted(tainted[m])[0])
+      ctx.record(R, f.where, norm(site), bad is None, ("operand is tested non-zero modulo self.mod on every path" if bad is None else
+                 "raises ZeroDivisionError when the operand is a non-zero multiple of the prime or 0: no path condition makes %r non-zero modulo self.mod, and "
+                 "unreduced artifact coordinates reach this function: %s" % (as_poly(bad.data["args"][0]), " ; ".join(chain))))
+  ctx.extra["raw_inversion_sites"] = n_sites
+
+
+def nonzero_mod(d, M, facts):
+  for fc in facts:
+    e = None
+    if fc[0] == "cmp" and fc[1] == "NotEq" and not isinstance(fc[2], Seq) and not isinstance(fc[3], Seq) and as_poly(fc[3]).is_zero():
+      e = as_poly(fc[2])
+    elif fc[0] == "cmp" and fc[1] == "NotEq" and not isinstance(fc[2], Seq) and not isinstance(fc[3], Seq) and as_poly(fc[2]).is_zero():
+      e = as_poly(fc[3])
+    elif fc[0] == "truthy" and not isinstance(fc[1], Seq):
+      e = as_poly(fc[1])
+    if e is None:
+      continue
+    a = e.as_atom()
+    if a is None or a.kind != "mod" or as_poly(a.args[1]) != M:
+      continue
+    inner = as_poly(a.args[0])
+    for c in (1, -1, 2, -2, 3, -3):
+      if (d - inner * c).is_zero():
+        return True
+  return False
+
+
+def canonical_z(cls, d, facts):
+  """d is the z-coordinate of a Jacobian parameter, tested != 0 as an integer: enough because every Jacobian triple built in EcCurve has a
+  z that is a literal, reduced modulo the prime, or copied from a parameter's own z (checked here on all 3-tuples of the class)."""
+  a = d.as_atom()
+  if a is None or a.kind != "idx" or as_poly(a.args[1]).as_int() != 2 or as_poly(a.args[0]).as_atom() is None or as_poly(a.args[0]).as_atom().kind != "param":
+    return False
+  if not any(fc[0] == "cmp" and fc[1] == "NotEq" and not isinstance(fc[2], Seq) and as_poly(fc[2]) == d and not isinstance(fc[3], Seq) and as_poly(fc[3]).is_zero() for fc in facts):
+    return False
+  from pcstatic.taint import ClassTaint
+  for m, f in cls.methods.items():
+    zparams = set()
+    for n in ast.walk(f.node):
+      if isinstance(n, ast.Assign) and len(n.targets) == 1 and isinstance(n.targets[0], ast.Tuple) and len(n.targets[0].elts) == 3 and isinstance(n.value, ast.Name):
+        z = n.targets[0].elts[2]
+        if isinstance(z, ast.Name):
+          zparams.add(z.id)
+    for r in ast.walk(f.node):
+      n = r.value if isinstance(r, ast.Return) else None
+      if isinstance(n, ast.Tuple) and len(n.elts) == 3:
+        z = n.elts[2]
+        ok = isinstance(z, ast.Constant) or (isinstance(z, ast.Name) and (z.id in zparams or ClassTaint._always_reduced(f.node, z.id))) or \
+            (isinstance(z, ast.BinOp) and isinstance(z.op, ast.Mod))
+        if not ok:
+          return False
+  return True
